@@ -57,16 +57,7 @@ func fmtIDs(ids []string) string {
 
 // drawLabels: nil = the server has no metadata entry at all; otherwise each label of the
 // vocabulary is present with one of three values or missing.
-func drawLabels(t *rapid.T, unique bool, i int) map[string]string {
-	if unique {
-		// every server carries every label with a value of its own (used when an open known
-		// finding requires strict rules to be satisfiable by construction)
-		m := map[string]string{}
-		for _, l := range labelNames {
-			m[l] = fmt.Sprintf("u%d", i)
-		}
-		return m
-	}
+func drawLabels(t *rapid.T) map[string]string {
 	if rapid.IntRange(0, 9).Draw(t, "noMeta") == 0 {
 		return nil
 	}
